@@ -53,6 +53,7 @@ package ir
 //@   loop 0: invariant curID >= old(curID) && forall(c int, old(curID) < c && c <= curID ==> used[c])
 
 //@ # explicit(d): definitions that carried an ID on entry keep it; the others get the smallest unused numbers in order.
+//@ macro wfMetadataIDs(m *Module) bool = forall(i, 0, len(m.MetadataDefs), m.MetadataDefs[i] != nil && mdid(m.MetadataDefs[i]) >= -1) && forall(i int, j int, 0 <= i && i < j && j < len(m.MetadataDefs) ==> ptrof(m.MetadataDefs[i]) != ptrof(m.MetadataDefs[j]))
 //@ func (*Module).AssignMetadataIDs
 //@   props C17
 //@   requires m != nil
@@ -126,23 +127,11 @@ package ir
 //@ macro rkA(m *Module, i int) int = cntG(m, len(m.Globals)) + cntA(m, i)
 //@ macro rkI(m *Module, i int) int = cntG(m, len(m.Globals)) + cntA(m, len(m.Aliases)) + cntI(m, i)
 //@ macro rkF(m *Module, i int) int = cntG(m, len(m.Globals)) + cntA(m, len(m.Aliases)) + cntI(m, len(m.IFuncs)) + cntF(m, i)
+//@ # wfGlobalIDs(m): the entities are non-nil, pairwise distinct and carry non-negative IDs
+//@ macro wfGlobalIDs(m *Module) bool = forall(k, 0, len(m.Globals), m.Globals[k] != nil && nvid(m.Globals[k]) >= 0) && forall(k, 0, len(m.Aliases), m.Aliases[k] != nil && nvid(m.Aliases[k]) >= 0) && forall(k, 0, len(m.IFuncs), m.IFuncs[k] != nil && nvid(m.IFuncs[k]) >= 0) && forall(k, 0, len(m.Funcs), m.Funcs[k] != nil && nvid(m.Funcs[k]) >= 0) && forall(i int, j int, 0 <= i && i < j && j < len(m.Globals) ==> m.Globals[i] != m.Globals[j]) && forall(i int, j int, 0 <= i && i < j && j < len(m.Aliases) ==> m.Aliases[i] != m.Aliases[j]) && forall(i int, j int, 0 <= i && i < j && j < len(m.IFuncs) ==> m.IFuncs[i] != m.IFuncs[j]) && forall(i int, j int, 0 <= i && i < j && j < len(m.Funcs) ==> m.Funcs[i] != m.Funcs[j]) && forall(i int, j int, 0 <= i && i < len(m.Globals) && 0 <= j && j < len(m.Aliases) ==> m.Globals[i] != m.Aliases[j]) && forall(i int, j int, 0 <= i && i < len(m.Globals) && 0 <= j && j < len(m.IFuncs) ==> m.Globals[i] != m.IFuncs[j]) && forall(i int, j int, 0 <= i && i < len(m.Globals) && 0 <= j && j < len(m.Funcs) ==> m.Globals[i] != m.Funcs[j]) && forall(i int, j int, 0 <= i && i < len(m.Aliases) && 0 <= j && j < len(m.IFuncs) ==> m.Aliases[i] != m.IFuncs[j]) && forall(i int, j int, 0 <= i && i < len(m.Aliases) && 0 <= j && j < len(m.Funcs) ==> m.Aliases[i] != m.Funcs[j]) && forall(i int, j int, 0 <= i && i < len(m.IFuncs) && 0 <= j && j < len(m.Funcs) ==> m.IFuncs[i] != m.Funcs[j])
 //@ func (*Module).AssignGlobalIDs
 //@   props C08 C13
-//@   requires m != nil
-//@   requires forall(k, 0, len(m.Globals), m.Globals[k] != nil && nvid(m.Globals[k]) >= 0)
-//@   requires forall(k, 0, len(m.Aliases), m.Aliases[k] != nil && nvid(m.Aliases[k]) >= 0)
-//@   requires forall(k, 0, len(m.IFuncs), m.IFuncs[k] != nil && nvid(m.IFuncs[k]) >= 0)
-//@   requires forall(k, 0, len(m.Funcs), m.Funcs[k] != nil && nvid(m.Funcs[k]) >= 0)
-//@   requires forall(i int, j int, 0 <= i && i < j && j < len(m.Globals) ==> m.Globals[i] != m.Globals[j])
-//@   requires forall(i int, j int, 0 <= i && i < j && j < len(m.Aliases) ==> m.Aliases[i] != m.Aliases[j])
-//@   requires forall(i int, j int, 0 <= i && i < j && j < len(m.IFuncs) ==> m.IFuncs[i] != m.IFuncs[j])
-//@   requires forall(i int, j int, 0 <= i && i < j && j < len(m.Funcs) ==> m.Funcs[i] != m.Funcs[j])
-//@   requires forall(i int, j int, 0 <= i && i < len(m.Globals) && 0 <= j && j < len(m.Aliases) ==> m.Globals[i] != m.Aliases[j])
-//@   requires forall(i int, j int, 0 <= i && i < len(m.Globals) && 0 <= j && j < len(m.IFuncs) ==> m.Globals[i] != m.IFuncs[j])
-//@   requires forall(i int, j int, 0 <= i && i < len(m.Globals) && 0 <= j && j < len(m.Funcs) ==> m.Globals[i] != m.Funcs[j])
-//@   requires forall(i int, j int, 0 <= i && i < len(m.Aliases) && 0 <= j && j < len(m.IFuncs) ==> m.Aliases[i] != m.IFuncs[j])
-//@   requires forall(i int, j int, 0 <= i && i < len(m.Aliases) && 0 <= j && j < len(m.Funcs) ==> m.Aliases[i] != m.Funcs[j])
-//@   requires forall(i int, j int, 0 <= i && i < len(m.IFuncs) && 0 <= j && j < len(m.Funcs) ==> m.IFuncs[i] != m.Funcs[j])
+//@   requires m != nil && wfGlobalIDs(m)
 //@   assigns ghost(nvid), ghost(idwrites, 0), ghost(held, addr(m.mu))
 //@   # success: every unnamed entity carries its rank; named ones are never touched
 //@   ensures result == nil ==> forall(k, 0, len(m.Globals), nvun(m.Globals[k]) ==> nvid(m.Globals[k]) == rkG(m, k))
@@ -1648,3 +1637,32 @@ package ir
 //@   loop 0: invariant forall(j, 0, range_i, typeis(index.Elems[j], "*constant.Int") && gival(index.Elems[j]) == gival(index.Elems[0]))
 //@   loop 0: invariant range_i > 0 ==> val == gival(index.Elems[0])
 //@ # ==== generated by /verif/tools/gen_gep_contracts.py: end ====
+
+//@ # ---------------------------------------------------------------- C19 (WriteTo) ---
+//@ # n is exactly the number of bytes the writer accepted, err the first error it returned, and
+//@ # no Write happens after the first failure (ghost writer state, specs/stdlib.spec).
+//@ func (*Module).WriteTo
+//@   props C19
+//@   keeps written, wcalls, firsterr, wafter
+//@   opaque LLString, String, Ident
+//@   assigns caches, ghost(written), ghost(wcalls), ghost(firsterr), ghost(wafter), ghost(nvid), ghost(idwrites), ghost(mdid), ghost(held)
+//@   requires m != nil && w != nil && firsterr(w) == nil && wfGlobalIDs(m) && wfMetadataIDs(m)
+//@   requires forall(k, 0, len(m.TypeDefs), m.TypeDefs[k] != nil) && forall(k, 0, len(m.ComdatDefs), m.ComdatDefs[k] != nil) && forall(k, 0, len(m.Globals), m.Globals[k] != nil)
+//@   requires forall(k, 0, len(m.Aliases), m.Aliases[k] != nil) && forall(k, 0, len(m.IFuncs), m.IFuncs[k] != nil) && forall(k, 0, len(m.Funcs), m.Funcs[k] != nil)
+//@   requires forall(k, 0, len(m.AttrGroupDefs), m.AttrGroupDefs[k] != nil) && forall(k, 0, len(m.MetadataDefs), m.MetadataDefs[k] != nil)
+//@   requires forall(k, 0, len(m.UseListOrders), m.UseListOrders[k] != nil) && forall(k, 0, len(m.UseListOrderBBs), m.UseListOrderBBs[k] != nil)
+//@   panics when true
+//@   ensures n == written(w) - old(written(w)) && err == firsterr(w) && wafter(w) == old(wafter(w))
+//@   loop 0: invariant 0 <= range_i && fw != nil && fw.w == w && fw.size == written(w) - old(written(w)) && fw.err == firsterr(w) && wafter(w) == old(wafter(w))
+//@   loop 1: invariant 0 <= range_i && fw != nil && fw.w == w && fw.size == written(w) - old(written(w)) && fw.err == firsterr(w) && wafter(w) == old(wafter(w))
+//@   loop 2: invariant 0 <= range_i && fw != nil && fw.w == w && fw.size == written(w) - old(written(w)) && fw.err == firsterr(w) && wafter(w) == old(wafter(w))
+//@   loop 3: invariant 0 <= range_i && fw != nil && fw.w == w && fw.size == written(w) - old(written(w)) && fw.err == firsterr(w) && wafter(w) == old(wafter(w))
+//@   loop 4: invariant 0 <= range_i && fw != nil && fw.w == w && fw.size == written(w) - old(written(w)) && fw.err == firsterr(w) && wafter(w) == old(wafter(w))
+//@   loop 5: invariant 0 <= range_i && fw != nil && fw.w == w && fw.size == written(w) - old(written(w)) && fw.err == firsterr(w) && wafter(w) == old(wafter(w))
+//@   loop 6: invariant 0 <= range_i && fw != nil && fw.w == w && fw.size == written(w) - old(written(w)) && fw.err == firsterr(w) && wafter(w) == old(wafter(w))
+//@   loop 7: invariant 0 <= range_i && fw != nil && fw.w == w && fw.size == written(w) - old(written(w)) && fw.err == firsterr(w) && wafter(w) == old(wafter(w))
+//@   loop 8: invariant (cap(mdNames) == 0 || fresh(mdNames)) && fw != nil && fw.w == w && fw.size == written(w) - old(written(w)) && fw.err == firsterr(w) && wafter(w) == old(wafter(w))
+//@   loop 9: invariant 0 <= range_i && fw != nil && fw.w == w && fw.size == written(w) - old(written(w)) && fw.err == firsterr(w) && wafter(w) == old(wafter(w))
+//@   loop 10: invariant 0 <= range_i && fw != nil && fw.w == w && fw.size == written(w) - old(written(w)) && fw.err == firsterr(w) && wafter(w) == old(wafter(w))
+//@   loop 11: invariant 0 <= range_i && fw != nil && fw.w == w && fw.size == written(w) - old(written(w)) && fw.err == firsterr(w) && wafter(w) == old(wafter(w))
+//@   loop 12: invariant 0 <= range_i && fw != nil && fw.w == w && fw.size == written(w) - old(written(w)) && fw.err == firsterr(w) && wafter(w) == old(wafter(w))
